@@ -139,14 +139,14 @@ def make_interp(tu, state, extra_leafs=None, max_paths=3000):
     return it
 
 
-def seed_globals(it, tu, state, table, argv=None, envp=None, errno_value=None):
+def seed_globals(it, tu, state, table, argv=None, envp=None, errno_value=None, argv_tail=(0,)):
     """install the `wasi` singleton with the given descriptor table (list of descriptor dicts)"""
     vd = tu.vars.get('wasi')
     if vd is None:
         raise AnalysisBroken('static WASI wasi not found in wasi.c')
     argv = argv if argv is not None else []
     envp = envp if envp is not None else []
-    w = {'envc': len(envp), 'envp': Ptr(list(envp) + [0], 0), 'argc': len(argv), 'argv': Ptr(list(argv) + [0], 0),
+    w = {'envc': len(envp), 'envp': Ptr(list(envp) + [0], 0), 'argc': len(argv), 'argv': Ptr(list(argv) + list(argv_tail), 0),
          'fds': runtime.Traced(it, 'fds', {'fds': Ptr(table, 0), 'length': len(table), 'capacity': len(table) + 8})}
     it.globals[vd['id']] = w
     mem = runtime.Traced(it, 'gmem', {'data': unk('gdata', 'unsigned char *'), 'size': unk('gsize'), 'pages': unk('gpages'),
